@@ -187,6 +187,11 @@ Qed.
 Definition PostT (nd ns:nat) (mx:Z) (r:rnode) (x:bool * rnode * list event * Z) : Prop :=
   let '(h, r', ev, idx) := x in Post nd ns mx r r' ev idx.
 
+Ltac sproj := cbn [s_free s_ready s_known s_system s_pri s_pgn s_src s_dst s_tp s_len s_data s_last s_time s_tpmax s_tpreq length].
+Lemma mk_slot_ok s : (length (s_data s) <= 223)%nat -> Forall byte_ok (s_data s) -> 0 <= s_len s <= 255 ->
+  (s_ready s = true -> s_len s <= Z.of_nat (length (s_data s))) -> slot_ok s.
+Proof. intros; split; [|split; [|split]]; auto. Qed.
+
 (* ---------- TestHandleTPMessage ---------- *)
 Lemma handle_tp_ok nd ns mx r pgn src dst len buf :
   T nd ns mx r -> rquiet r -> Forall byte_ok buf -> PostT nd ns mx r (handle_tp r pgn src dst len buf).
@@ -218,8 +223,8 @@ Proof.
       { apply andb_prop in En. destruct En as [En _]. apply Z.leb_le in En. unfold c_MaxDataLen in En.
         match goal with |- context [set_slot r1 idx ?s] => set (s2 := s) in * end.
         assert (Hs2 : slot_ok s2).
-        { unfold slot_ok, s2; simpl. repeat split; auto; try lia. rewrite Hr0. discriminate. }
-        assert (Hr2 : s_ready s2 = false) by (unfold s2; simpl; auto).
+        { apply mk_slot_ok; unfold s2; sproj; auto; try lia. rewrite Hr0. discriminate. }
+        assert (Hr2 : s_ready s2 = false) by (unfold s2; sproj; auto).
         pose proof (Post_set_unready nd ns mx r r1 idx s2 HT1 Eq1 Hi HQr1 Hs2 Hr2) as HP.
         destruct ((byte buf 0 =? c_TP_CM_RTS) && (idev >=? 0)) eqn:Ea.
         - apply andb_prop in Ea. destruct Ea as [_ Ea].
@@ -229,8 +234,8 @@ Proof.
         - simpl. exact HP. }
       { match goal with |- context [set_slot r1 idx ?s] => set (s1 := s) in * end.
         assert (Hs1 : slot_ok s1).
-        { unfold slot_ok, s1; simpl. repeat split; auto; try lia. }
-        assert (Hr1 : s_ready s1 = false) by (unfold s1; simpl; auto).
+        { apply mk_slot_ok; unfold s1; sproj; auto; try lia. }
+        assert (Hr1 : s_ready s1 = false) by (unfold s1; sproj; auto).
         pose proof (Post_set_unready nd ns mx r r1 idx s1 HT1 Eq1 Hi HQr1 Hs1 Hr1) as HP.
         destruct ((byte buf 0 =? c_TP_CM_RTS) && (idev >=? 0)) eqn:Ea.
         - apply andb_prop in Ea. destruct Ea as [_ Ea].
@@ -278,7 +283,7 @@ Proof.
     set (data' := copy_buf (s_data s) 1 len buf) in *.
     destruct (Z.of_nat (length data') >=? s_len s) eqn:Ec.
     + match goal with |- context [set_slot r idx ?x] => set (s2 := x) in * end.
-      assert (Hs2 : slot_ok s2) by (unfold slot_ok, s2; simpl; repeat split; auto; try lia).
+      assert (Hs2 : slot_ok s2) by (apply mk_slot_ok; unfold s2; sproj; auto; try lia).
       assert (Hr2 : s_ready s2 = true) by reflexivity.
       pose proof (Post_set_ready nd ns mx r r idx s2 HT eq_refl Hi HQ Hs2 Hr2) as HP.
       destruct ((s_tpreq s2 >? 0) && (idev >=? 0)) eqn:Ea.
@@ -288,8 +293,8 @@ Proof.
         eapply Post_step; eauto.
       * simpl. exact HP.
     + match goal with |- context [set_slot r idx ?x] => set (s1 := x) in * end.
-      assert (Hs1 : slot_ok s1) by (unfold slot_ok, s1; simpl; repeat split; auto; try lia; rewrite Hr0; discriminate).
-      assert (Hr1 : s_ready s1 = false) by (unfold s1; simpl; auto).
+      assert (Hs1 : slot_ok s1) by (apply mk_slot_ok; unfold s1; sproj; auto; try lia; rewrite Hr0; discriminate).
+      assert (Hr1 : s_ready s1 = false) by (unfold s1; sproj; auto).
       pose proof (Post_set_unready nd ns mx r r idx s1 HT eq_refl Hi HQ Hs1 Hr1) as HP.
       rewrite Hr1.
       destruct ((s_tpreq s1 >? 0) && (idev >=? 0) && (s_last s1 mod s_tpreq s1 =? 0)) eqn:Ea.
@@ -306,5 +311,5 @@ Proof.
     pose proof (Step_T _ _ _ _ _ HT S) as HT1. destruct S as (_ & Es & Eq).
     assert (HQ1 : rquiet r1) by (unfold rquiet; rewrite Es; auto).
     pose proof (Post_set_unready nd ns mx r r1 idx (free_slot (get_slot r1 idx)) HT1 Eq Hi HQ1 (free_slot_ok _ (T_get_slot _ _ _ _ _ HT1)) eq_refl) as (P1 & P2 & _ & P4).
-    split; auto. split; auto.
+    split; auto.
 Qed.
